@@ -274,18 +274,60 @@ def _indexed_tie(ctx, out, rng):
             out["nontrivial"].add(("indexed", str(c)))
 
 
+def _wls_tie(ctx, out, rng):
+    """the model's `weightedLogSum`/`lnLCompressed` and `fullLength` (the functions theorems compress_sum /
+    full_length_expand / lnL_eq_definition talk about) against the REAL numba kernel get_log_sum_across_sites and
+    get_full_length_likelihoods: per-key likelihood 2^-e (e = first component of the key, 0..3), so that log is exact up
+    to the factor ln 2 and the model can run with the integer-valued g(key) = -e"""
+    import types
+
+    import numpy
+    from cogent3.evolve.likelihood_tree import LikelihoodTreeEdge, _indexed
+
+    cases = []
+    for n in range(0, 5):
+        for keys in itertools.product(range(3), repeat=n):
+            cases.append([[k] for k in keys])
+    for _ in range(ctx.budget(200, 4000)):
+        n = rng.randint(0, 40)
+        w = rng.randint(1, 3)
+        k = rng.randint(1, 4)
+        cases.append([[rng.randrange(k) for _ in range(w)] for _ in range(n)])
+    replies = ctx.driver.batch([("wls", dict(values=c)) for c in cases])
+    ln2 = math.log(2.0)
+    for c, r in zip(cases, replies):
+        out["evaluations"] += 1
+        if "error" in r:
+            add_failure(out, "corr", "driver error (wls)", c, "reply", r["error"], confirmed=False)
+            continue
+        u, cnt, idx = _indexed([tuple(x) for x in c])
+        node = types.SimpleNamespace(counts=numpy.array(cnt, float), index=idx)
+        lhs = numpy.array([2.0 ** -key[0] for key in u], float)
+        real = float(LikelihoodTreeEdge.get_log_sum_across_sites(node, lhs)) / ln2
+        full = [int(x) for x in LikelihoodTreeEdge.get_full_length_likelihoods(node, numpy.array([-key[0] for key in u], int))]
+        bump(out, "wls_len", min(len(c), 10))
+        if abs(real - r["wls"]) > 1e-9 * max(1.0, abs(r["wls"])) or r["wls"] != r["plain"]:
+            add_failure(out, "corr", "get_log_sum_across_sites differs from model weightedLogSum", c, r["wls"], real, confirmed=False)
+        if full != r["full"]:
+            add_failure(out, "corr", "get_full_length_likelihoods differs from model fullLength", c, r["full"], full, confirmed=False)
+        if len(u) < len(c) and len(u) > 1:
+            out["nontrivial"].add(("wls", str(c)))
+
+
 def correspondence(ctx):
     out = new_outcome(
         "shadow: likelihood functions of every named model (nucleotide always; codon/protein rotating with the seed in the "
         "quick tier, all in thorough; a dinucleotide model), random rose trees 3-7 tips with polytomies/unary nodes, "
         "alignments with IUPAC ambiguity and gaps, random in-bounds parameters, per-edge scopes, 1-4 rate bins; the model "
         "`prune` on the implementation's own float64 inputs and leaf arrays vs get_full_length_likelihoods / lnL / root "
-        "index+counts; plus `_indexed` exhaustively on short key lists and randomly; non-trivial = problems with >= 2 "
+        "index+counts; plus `_indexed` exhaustively on short key lists and randomly; plus the model's weightedLogSum / fullLength "
+        "vs the real numba get_log_sum_across_sites / get_full_length_likelihoods on power-of-two likelihoods; non-trivial = problems with >= 2 "
         "unique columns (and _indexed inputs with a repeated key and >= 2 distinct keys)"
     )
     rng = ctx.subrng("corr")
     U.BIG_BINS = ctx.thorough
     _indexed_tie(ctx, out, rng)
+    _wls_tie(ctx, out, rng)
     if ctx.thorough:
         plan = _model_plan(ctx, rng, 800, 100, 40, 20)
     else:
